@@ -6,13 +6,11 @@ use vstd::slice::SliceIndexSpec;
 use vstd::std_specs::iter::IteratorSpec;
 use std::collections::BTreeSet;
 use std::collections::btree_set;
-use core::marker::PhantomData;
 verus! {
 global size_of usize == 8;
 //@include prelude/std_contracts.rs
 //@include prelude/list_core_std.rs
 //@include prelude/list_ops_std.rs
-//@include prelude/c13left_std.rs
 
 //@import units/inc/list_core.inc.rs
 
